@@ -873,8 +873,31 @@ pub(crate) fn m_insert_child() {
     }
 }
 
+/// Every element kind keeps all of its children's text, in document order (public API).
+pub(crate) fn m_dom_children() {
+    let _which: u8 = kani::any();
+    let kinds: [(&str, &str); 17] = [
+        ("<em>", "</em>"), ("<strong>", "</strong>"), ("<s>", "</s>"), ("<code>", "</code>"), ("<p>", "</p>"),
+        ("<ul><li>", "</li></ul>"), ("<sup>", "</sup>"), ("<div>", "</div>"), ("<blockquote>", "</blockquote>"),
+        ("<ol><li>", "</li></ol>"), ("<dl><dt>", "</dt></dl>"), ("<dl><dd>", "</dd></dl>"), ("<h2>", "</h2>"),
+        ("<span>", "</span>"), ("<a href=\"u\"> ", "</a>"), ("<a href=\"u\">", "<br></a>"), ("<pre>", "</pre>"),
+    ];
+    for (open, close) in kinds.iter() {
+        let html = format!("{}<b>tokone</b> toktwo <i>tokthree</i>{}", open, close);
+        let out = crate::config::with_decorator(TrivialDecorator::new())
+            .string_from_read(html.as_bytes(), 80)
+            .expect("renders")
+            .replace('\u{336}', "");
+        let p1 = out.find("tokone").unwrap_or_else(|| panic!("first child lost in {}: {:?}", open, out));
+        let p2 = out.find("toktwo").unwrap_or_else(|| panic!("second child lost in {}: {:?}", open, out));
+        let p3 = out.find("tokthree").unwrap_or_else(|| panic!("third child lost in {}: {:?}", open, out));
+        assert!(p1 < p2 && p2 < p3, "children reordered in {}: {:?}", open, out);
+        assert!(out.matches("tokone").count() == 1 && out.matches("tokthree").count() == 1, "child duplicated in {}", open);
+    }
+}
+
 crate::verif_common::registry! {
-    m_cell_unwind, m_routes_width, m_insert_child, m_ol_numbering, m_prefix_width, m_into_cells, m_table_col_width, m_table_alloc,
+    m_dom_children, m_cell_unwind, m_routes_width, m_insert_child, m_ol_numbering, m_prefix_width, m_into_cells, m_table_col_width, m_table_alloc,
     r1_cascade_pairs, r1_cascade_triples, r2_specificity_order, r2_specificity_add,
     r3_ol_prefix_total, r4_ol_prefix_is_max,
     r9_tree_map_reduce_order, r12_config_plumbing, r12_width_zero,
